@@ -304,20 +304,39 @@ def literalType : Expr → Option VType
       | _, _ => none
   | _ => none
 
+/-- `variable_read_class` (fix D-03e): a read of a local of an ENCLOSING function may trap (the
+function can be called before the variable's `make`); own locals, parameters and unresolved names
+do not. -/
+def varReadClass (env : Env) (cur : Scope) (fx : Facts) (v : Bytes) : ExprClass :=
+  match lookupVar env cur v with
+  | some e =>
+      match fx.locals[e.id]? with
+      | some l => if l.owner != env.owner then .pureMayTrap else .pureNoTrap
+      | none => .pureNoTrap
+  | none => .pureNoTrap
+
+/-- The `{name}` segments of an interpolated string. -/
+def segsClass (env : Env) (cur : Scope) (fx : Facts) : List Seg → ExprClass
+  | [] => .pureNoTrap
+  | .lit _ :: rest => segsClass env cur fx rest
+  | .var v _ :: rest => (varReadClass env cur fx v).join (segsClass env cur fx rest)
+
 mutual
-  def classifyExpr (env : Env) : Expr → ExprClass
-    | .num _ _ | .bool _ _ | .null _ | .var _ _ _ | .str _ _ => .pureNoTrap
-    | .array es _ => classifyExprs env es
-    | .index a i _ _ => ((classifyExpr env a).join (classifyExpr env i)).join .pureMayTrap
+  def classifyExpr (env : Env) (cur : Scope) (fx : Facts) : Expr → ExprClass
+    | .num _ _ | .bool _ _ | .null _ | .str (.static _) _ => .pureNoTrap
+    | .var v _ _ => varReadClass env cur fx v
+    | .str (.interp segs) _ => segsClass env cur fx segs
+    | .array es _ => classifyExprs env cur fx es
+    | .index a i _ _ => ((classifyExpr env cur fx a).join (classifyExpr env cur fx i)).join .pureMayTrap
     | .binary op l r s =>
-        let c := (classifyExpr env l).join (classifyExpr env r)
+        let c := (classifyExpr env cur fx l).join (classifyExpr env cur fx r)
         if op = .divide || op = .mod || (literalType (.binary op l r s)).isNone then c.join .pureMayTrap else c
     | .unary op e s =>
-        let c := classifyExpr env e
+        let c := classifyExpr env cur fx e
         if (literalType (.unary op e s)).isNone then c.join .pureMayTrap else c
-    | .member o _ _ _ => (classifyExpr env o).join .pureMayTrap
+    | .member o _ _ _ => (classifyExpr env cur fx o).join .pureMayTrap
     | .call callee args _ _ =>
-        let c := classifyExprs env args
+        let c := classifyExprs env cur fx args
         match callee with
         | .var fname _ _ =>
             match GlobalB.ofName fname with
@@ -326,15 +345,15 @@ mutual
                 if g = .command && (args.head?.bind literalType) != some .string then c.join .pureMayTrap else c
             | none => if (lookupFn env fname).isNone then c.join .impure else c
         | .member obj field _ _ =>
-            let c := (c.join (classifyExpr env obj)).join .pureMayTrap
+            let c := (c.join (classifyExpr env cur fx obj)).join .pureMayTrap
             match memberAny field with
             | some m => c.join m.cls
             | none => c.join .impure
         | _ => c.join .impure
   /-- fold of `join` over a list, starting from `PureNoTrap` -/
-  def classifyExprs (env : Env) : List Expr → ExprClass
+  def classifyExprs (env : Env) (cur : Scope) (fx : Facts) : List Expr → ExprClass
     | [] => .pureNoTrap
-    | e :: es => (classifyExpr env e).join (classifyExprs env es)
+    | e :: es => (classifyExpr env cur fx e).join (classifyExprs env cur fx es)
 end
 
 /-- `expr_root_local`. -/
@@ -587,7 +606,7 @@ mutual
         let f1 := pushStmt f0 env.owner env.scope
         let d1 := errIf (isReservedName x) (RDiag.at .reservedVar xs)
         let r := checkExpr env cur.vars sid e f1
-        let f2 := joinClass r.facts sid (classifyExpr env e)
+        let f2 := joinClass r.facts sid (classifyExpr env cur.vars r.facts e)
         let ty := (inferExpr env cur.vars e).getD .dynamic
         match findVar cur.vars x with
         | some ent =>
@@ -606,11 +625,11 @@ mutual
             let f2 := recCapWrite (recStmtWrite f1 env.owner sid ent.id) env.owner ent.id
             let r := checkExpr env cur.vars sid e f2
             ⟨.assignExisting x xs r.val (some ent.id) (some sid) sp, r.ds,
-             joinClass r.facts sid (classifyExpr env e), cur⟩
+             joinClass r.facts sid (classifyExpr env cur.vars r.facts e), cur⟩
         | none =>
             let r := checkExpr env cur.vars sid e f1
             ⟨.assignExisting x xs r.val none (some sid) sp, RDiag.at .assignUndeclared xs :: r.ds,
-             joinClass r.facts sid (classifyExpr env e), cur⟩
+             joinClass r.facts sid (classifyExpr env cur.vars r.facts e), cur⟩
     | .assignIndex t e _ sp, f0 =>
         let sid := f0.stmtEffects.length
         let f1 := pushStmt f0 env.owner env.scope
@@ -627,7 +646,7 @@ mutual
         let f1 := pushStmt f0 env.owner env.scope
         let rc := checkExpr env cur.vars sid c f1
         let d := errIf (!condOk (inferExpr env cur.vars c)) (RDiag.at .tyCond c.span)
-        let f2 := joinClass rc.facts sid (classifyExpr env c)
+        let f2 := joinClass rc.facts sid (classifyExpr env cur.vars rc.facts c)
         let envB := { env with vars := cur.vars :: env.vars }
         let rt := checkBlock envB (some env.scope) t f2
         let re := checkOptBlock envB (some env.scope) e rt.facts
@@ -637,7 +656,7 @@ mutual
         let f1 := pushStmt f0 env.owner env.scope
         let rc := checkExpr env cur.vars sid c f1
         let d := errIf (!condOk (inferExpr env cur.vars c)) (RDiag.at .tyCond c.span)
-        let f2 := joinClass rc.facts sid (classifyExpr env c)
+        let f2 := joinClass rc.facts sid (classifyExpr env cur.vars rc.facts c)
         let envB := { env with vars := cur.vars :: env.vars, inLoop := env.inLoop + 1 }
         let rb := checkBlock envB (some env.scope) b f2
         ⟨.loop rc.val rb.val (some sid) sp, rc.ds ++ d ++ rb.ds, rb.facts, cur⟩
@@ -674,7 +693,7 @@ mutual
         match e with
         | some e =>
             let r := checkExpr env cur.vars sid e f1
-            ⟨.ret (some r.val) (some sid) sp, d ++ r.ds, joinClass r.facts sid (classifyExpr env e), cur⟩
+            ⟨.ret (some r.val) (some sid) sp, d ++ r.ds, joinClass r.facts sid (classifyExpr env cur.vars r.facts e), cur⟩
         | none => ⟨.ret none (some sid) sp, d, joinClass f1 sid .pureNoTrap, cur⟩
     | .brk _ sp, f0 =>
         let sid := f0.stmtEffects.length
@@ -688,7 +707,7 @@ mutual
         let sid := f0.stmtEffects.length
         let f1 := pushStmt f0 env.owner env.scope
         let r := checkExpr env cur.vars sid e f1
-        ⟨.expr r.val (some sid) sp, r.ds, joinClass r.facts sid (classifyExpr env e), cur⟩
+        ⟨.expr r.val (some sid) sp, r.ds, joinClass r.facts sid (classifyExpr env cur.vars r.facts e), cur⟩
   def checkStmts (env : Env) (cur : Cur) : List Stmt → Facts → SsOut
     | [], f => ⟨[], [], f, cur⟩
     | s :: ss, f =>
